@@ -108,7 +108,7 @@ CORPUS = [
     # outside the grammar: several '@', several ':', stray brackets, empty host
     "http://a@b@c.com/", "http://a.com:80:90/", "http://a]:80/", "http:///path", "http:////x", "http://:80/",
     "http://u:p:q@a.com/", "http://a.com:x/", "http://a%41.com/",
-    # D51: scheme-less host followed by a path starting with '//'
+    # D51 (fixed: PROTOCOL_RE no longer takes `<letters>//` for a protocol): scheme-less host followed by a path starting with '//'
     "localhost//a", "a//x",
     # '|' (outside the property, model fidelity only)
     "http://a.com/a|b", "http://a.com/|s:x", "http://a|b.com/", "http://a.com/x|", "http://a.com/?|p:", "|",
@@ -567,18 +567,6 @@ def oracle(case):
         if again != lru:
             return "url_to_lru(lru_to_url(%s(u))) = %r, expected %r (u -> %r)" % (name, again, lru, back)
     return None
-
-
-import re as _re
-
-_D51 = _re.compile(r"^(?:[a-zA-Z]{1,64}|:)//")
-
-
-def kf_schemeless_host_double_slash(case, failure):
-    """KF-C12-1 (D51): `<letters>//...` (a scheme-less host whose path starts with an empty
-    segment) is taken for a protocol by ensure_protocol's PROTOCOL_RE, so the host is parsed as
-    part of the path and lost.  Fix proposed: /tmp/fixes/c12c13/0001-*.patch"""
-    return case.get("k") == "url" and bool(_D51.match(case["url"])) and "components" in failure
 
 
 def nontrivial(case):
